@@ -41,6 +41,28 @@ def schnorr_sign_then_verify(d, msg, aux):
     return pk.point.verify_schnorr(msg, sig)
 
 
+def schnorr_verify_history(d, msg, aux, flips):
+    """history on ONE public-key object: verify the honest signature, then a series of altered signatures (bit `f` of the
+    64 bytes flipped, for each f in flips) and an altered message, then the honest signature again
+    -> (first verdict, [verdicts of the altered ones], last verdict, key unchanged)"""
+    pk = PrivateKey(d)
+    sig = pk.sign_schnorr(msg, aux).serialize()
+    pub = pk.point
+    x0, y0 = pub.x.num, pub.y.num
+    first = pub.verify_schnorr(msg, SchnorrSignature.parse(sig))
+    mids = []
+    for f in flips:
+        bad = bytearray(sig)
+        bad[f // 8] ^= 1 << (f % 8)
+        try:
+            mids.append(pub.verify_schnorr(msg, SchnorrSignature.parse(bytes(bad))))
+        except ValueError:
+            mids.append(False)          # an r or s that cannot be parsed is a rejection
+    mids.append(pub.verify_schnorr(bytes([msg[0] ^ 1]) + msg[1:], SchnorrSignature.parse(sig)))
+    last = pub.verify_schnorr(msg, SchnorrSignature.parse(sig))
+    return first, mids, last, (pub.x.num, pub.y.num) == (x0, y0)
+
+
 def schnorr_sig_init(r_point, s):
     return SchnorrSignature(r_point, s).s
 
